@@ -155,9 +155,22 @@ def oracle_analyze(ctx, rng, n):
             case['types'][tn]['FuelModel'] = dict(fuel)
             case['types'][tn]['Hotspot'] = {'hs': dict(temperature=where, input_sigma=3, output_sigma=2, subfactors=path)}
         gi.random_power(rng, case)
+        best = {}
+
+        def cb(i, z, dz):
+            # independent record of every assembly's nominal peak at the requested location: the pin row (coolant, clad, fuel
+            # temperatures of one pin at one height) with the largest value so far, first occurrence
+            for a in r.assemblies:
+                tp = a.pin_temp_array
+                if tp is None:
+                    continue
+                col = _IDX[where] - 1
+                k = int(np.argmax(tp[:, col]))
+                if a.id not in best or tp[k, col] > best[a.id][col]:
+                    best[a.id] = np.array(tp[k], dtype=float).copy()
         try:
             inp, r = gi.build_reactor(case, d)
-            gi.sweep(r)
+            gi.sweep(r, cb)
         except SystemExit:
             ctx.count("analyze_case_rejected")
             shutil.rmtree(d, ignore_errors=True)
@@ -171,7 +184,9 @@ def oracle_analyze(ctx, rng, n):
         temps, ids = out
         ids = list(ids[where])
         for a in r.assemblies:
-            own = np.array([r.inlet_temp] + list(a._peak['pin'][where][2][3:_IDX[where]]), dtype=float)
+            if a.id not in best:
+                continue
+            own = np.array([r.inlet_temp] + list(best[a.id][3:_IDX[where]]), dtype=float)
             dT = (own[1:] - own[:-1])[None, :]
             if a.id not in ids:
                 ctx.violation("c19-analyze-missing", "assembly %d requested a hot spot but is not in the result" % a.id, case=case)
